@@ -143,6 +143,14 @@ TuckerDenseOpt(in, skip, tr, modes) ==
             LET g == Unlin(in.core.shape, n - 1) IN
             in.core.data[n] * FProd(N, LAMBDA k :
                 IF act(k) = {} THEN (IF idx[k] = g[k] THEN 1 ELSE 0) ELSE OptM(in.fs[fac(k)], tr, idx[k], g[k]))))
+\* Invalid pair UNDER OPTIONS: a factor that is actually applied does not fit the core's size in its mode.  Every
+\* conversion called with these options must refuse it (a backend that broadcasts a size of 1 must not be relied on).
+\* A mismatch confined to the factor that is left out carries no obligation.
+TuckerOptMismatch(in, skip, tr, modes) ==
+    LET pos == OptPos(in, modes)  N == Len(in.core.shape) IN
+    /\ TuckerPartsOK(in) /\ Len(pos) = Len(in.fs) /\ skip \in -1..(Len(in.fs) - 1)
+    /\ \A j \in 1..Len(pos) : pos[j] \in 1..N
+    /\ \E j \in 1..Len(pos) : j - 1 # skip /\ OptIn(in.fs[j], tr) # in.core.shape[pos[j]]
 \* the same tensor as a chain of mode products with the (possibly transposed) listed factors, skipping one
 TransposeM(F) == Build(<<F.shape[2], F.shape[1]>>, LAMBDA p : E2(F, p[2], p[1]))
 TuckerSeqOpt(in, skip, tr, modes) ==
@@ -295,7 +303,7 @@ P2Roots == {<<I, K>> : I \in 2..3, K \in 1..MaxDim}
 \* the rank / column count one too large, -1: one too small -- down to rank 0 and boundary rank 0).
 \* Both directions matter: a validator that only looks for an excess (or only for a deficit) is wrong.
 Rec(op, s, r, hw, ls) == [op |-> op, shape |-> s, rank |-> r, hasw |-> hw, lens |-> ls, bad |-> "none", at |-> 0, dl |-> 0,
-                          skip |-> -1, tr |-> FALSE, modes |-> <<>>, mix |-> "none", late |-> FALSE, mag |-> 0, tmag |-> 0, zero |-> "none"]
+                          skip |-> -1, tr |-> FALSE, modes |-> <<>>, mix |-> "none", late |-> FALSE, mag |-> 0, tmag |-> 0, zero |-> "none", pnear |-> 0]
 \* Mixed storage types across the parts of ONE factorised tensor (valid family).  "<type>_first/last":
 \* the first / last factor (core, for TT-like formats) is stored as int64, float32 or complex128, every
 \* other array as float64.  Non-integer arrays hold half-integers (numerators over the denominator 2
@@ -340,6 +348,13 @@ TuckerOptCfgs(s) ==
          \cup {[Rec("tucker", s, r, FALSE, <<>>) EXCEPT !.modes = [q \in 1..N |-> N - q]]}            \* factors listed in reverse mode order
          \cup {[Rec("tucker", s, r, FALSE, <<>>) EXCEPT !.modes = DropAt(all, 1), !.skip = 0, !.tr = TRUE]}
        : r \in rs}
+    \* the same options on an INVALID pair: one applied (or left-out) factor one too large / small in the contracted dimension
+    \cup (IF Size(s) > 4 \/ N > 3 THEN {} ELSE
+          LET r == [q \in 1..N |-> 1 + (q % 2)]  b == Rec("tucker", s, r, FALSE, <<>>) IN
+          {[x EXCEPT !.bad = "fcols", !.at = k, !.dl = d] :
+              x \in ({[b EXCEPT !.skip = j, !.tr = t] : j \in -1..(N - 1), t \in BOOLEAN} \ {b})
+                    \cup {[b EXCEPT !.modes = [q \in 1..N |-> q - 1]], [b EXCEPT !.modes = [q \in 1..N |-> N - q], !.skip = 0]},
+              k \in 1..N, d \in {1, -1}})
     \* the same options with a COMPLEX first / last factor: transpose_factors means the CONJUGATE transpose
     \cup (IF Size(s) > MaxBadSize \/ N > 3 THEN {} ELSE
           LET r == [q \in 1..N |-> 1 + (q % 2)]  b == Rec("tucker", s, r, FALSE, <<>>) IN
@@ -389,6 +404,12 @@ CfgsOf(root) ==
             LET ib == Rec("p2", s, <<2>>, TRUE, [q \in 1..s[1] |-> 2 + (q % 2)]) IN
             {Rec("p2", s, <<r>>, hw, js) : r \in 1..MaxRank, js \in [1..s[1] -> 1..MaxP2J], hw \in BOOLEAN}
             \cup MixCfgs(ib) \cup MixCfgs(Rec("p2", s, <<1>>, TRUE, [q \in 1..s[1] |-> 1 + (q % 3)]))
+            \* NEAR-orthonormal projections: every P_i times (1 + pnear * 2^-18).  P^T P deviates from I by 7.6e-6, inside
+            \* the validator's documented tolerance (1e-5): a VALID input.  The represented tensor is exactly
+            \* (1 + pnear * 2^-18) times that of the exact projections (homogeneity, TLC-checked): every view, and every
+            \* norm, must follow the STORED projections -- the harness divides results by that factor, which is exact.
+            \cup {[x EXCEPT !.pnear = e] : x \in {ib, Rec("p2", s, <<1>>, TRUE, [q \in 1..s[1] |-> 1 + (q % 3)]),
+                                                 Rec("p2", s, <<2>>, FALSE, [q \in 1..s[1] |-> 2 + ((q + 1) % 2)])}, e \in {1, -1}}
             \cup Perturb(ib, {"pcols"}, 1..s[1], {1, -1})
             \cup Perturb(ib, NonOrthNames, 1..s[1], {0})
             \cup Perturb(ib, {"bcols", "ccols"}, {0}, {1, -1})
@@ -405,8 +426,11 @@ FactorShapes(c) ==
         on(name, cond) == IF b = name /\ cond THEN c.dl ELSE 0
         bump(k) == on("fcols", at = k) + on("chain", at = k) IN
     CASE c.op = "cp"     -> [k \in 1..N |-> <<s[k], r[1] + bump(k)>>]
-      [] c.op = "tucker" -> IF c.modes # <<>> THEN [j \in 1..Len(c.modes) |-> <<s[c.modes[j] + 1], r[c.modes[j] + 1]>>]
-                            ELSE [k \in 1..(IF b = "nfactors" THEN N - 1 ELSE N) |-> <<s[k], r[k] + bump(k)>>]
+      \* (under transpose_factors the dimension contracted with the core is the factor's ROW count: that one is perturbed)
+      [] c.op = "tucker" -> IF c.modes # <<>> THEN [j \in 1..Len(c.modes) |-> <<s[c.modes[j] + 1] + (IF c.tr THEN bump(j) ELSE 0),
+                                                                                 r[c.modes[j] + 1] + (IF c.tr THEN 0 ELSE bump(j))>>]
+                            ELSE [k \in 1..(IF b = "nfactors" THEN N - 1 ELSE N) |-> <<s[k] + (IF c.tr THEN bump(k) ELSE 0),
+                                                                                       r[k] + (IF c.tr THEN 0 ELSE bump(k))>>]
       [] c.op \in {"tt", "tr"} ->
             [k \in 1..N |-> <<r[k] + on("bound_first", k = 1) + on("closure_first", k = 1), s[k],
                               r[k + 1] + bump(k) + on("bound_last", k = N) + on("closure", k = N)>>]
@@ -454,7 +478,7 @@ Expand(c) ==
      coreshape |-> IF c.op = "tucker" THEN (IF c.tr THEN c.shape ELSE c.rank) ELSE <<>>,
      pshapes |-> PShapes(c),
      pden |-> IF c.bad = "nonorth_half" THEN 2 ELSE 1,
-     mix |-> c.mix, late |-> c.late, mag |-> c.mag, tmag |-> c.tmag, zero |-> c.zero,
+     mix |-> c.mix, late |-> c.late, mag |-> c.mag, tmag |-> c.tmag, zero |-> c.zero, pnear |-> c.pnear,
      \* LATE: array shapes of the valid configuration the wrapper object is built from before its parts are replaced
      bfshapes |-> IF c.late THEN FactorShapes(BaseOf(c)) ELSE <<>>,
      bcoreshape |-> IF c.late /\ c.op = "tucker" THEN BaseOf(c).rank ELSE <<>>,
@@ -515,6 +539,10 @@ ClassOf(kind, in) ==
     ELSE IF NonOrthonormal(kind, in) THEN "orth" ELSE "other"
 
 HasOpt(c) == c.skip # -1 \/ c.tr \/ c.modes # <<>>
+OptBadOK(c) ==      \* invalid pair under options: rejected iff the perturbed factor is one that is applied
+    LET in == GenIn(c) IN
+    /\ c.op = "tucker" /\ c.bad = "fcols" /\ ~ValidTuckerOpt(in, c.skip, c.tr, c.modes)
+    /\ (TuckerOptMismatch(in, c.skip, c.tr, c.modes) <=> c.at - 1 # c.skip)
 OptCfgOK(c) ==      \* Tucker view options: ONE option-dependent dense tensor, cross-checked three ways
     LET in == GenIn(c)  D == TuckerDenseOpt(in, c.skip, c.tr, c.modes)  N == Len(in.core.shape) IN
     /\ c.op = "tucker" /\ c.bad = "none"
@@ -567,6 +595,7 @@ OptMixOK(c) ==      \* Tucker options x complex factor: the option-dependent ten
     /\ (c.skip = k - 1 => TuckerDenseOpt([in EXCEPT !.fs[k] = Y], c.skip, c.tr, c.modes) = D)
 
 CfgOK(c) ==
+    IF HasOpt(c) /\ c.bad # "none" THEN OptBadOK(c) ELSE
     IF c.mix # "none" /\ HasOpt(c) THEN OptMixOK(c) ELSE
     IF c.mix # "none" THEN MixCfgOK(c) ELSE
     IF HasOpt(c) THEN OptCfgOK(c) ELSE
@@ -574,6 +603,8 @@ CfgOK(c) ==
     /\ ValidCfg(c)
     /\ (c.late => ValidCfg(BaseOf(c)) /\ Valid(kd, GenIn(BaseOf(c))))      \* the object is built from a valid configuration
     /\ (c.mag # 0 => c.bad = "none" /\ MagMove(kd, in))
+    /\ (c.pnear # 0 => kd = "p2" /\ c.bad = "none"
+            /\ P2Dense([in EXCEPT !.ps = [i \in 1..Len(in.ps) |-> ScaleT(in.ps[i], 2)]]) = ScaleT(P2Dense(in), 2))
     /\ (c.tmag # 0 => c.bad = "none" /\ Dense(kd, [in EXCEPT !.fs[1] = ScaleT(in.fs[1], 2)]) = ScaleT(Dense(kd, in), 2))
     /\ ClassOf(kd, in) = ClassOfBad(c)                  \* the perturbation table and the predicates agree
     /\ (ClassOfBad(c) \in {"ranks", "boundary", "orth"} <=> MustReject(kd, in))
